@@ -17,7 +17,8 @@ Template directives (a line whose first non-blank characters are `//@`):
       //@loop <k>        following lines go between the k-th loop header and its `{`
       //@loopentry <k>   following lines go right after the k-th loop's `{`
       //@closure <k> <header>   header replaces `|params|` of the k-th closure; its body is braced
-      //@before <k> <token>     (//@before? = skip silently when the anchor is absent) following lines go before the k-th occurrence of <token> (if that is
+      //@before <k> <token> [@after <pattern>]   (//@before? = skip silently when the anchor is absent; with @after, occurrences
+                                are counted from the first occurrence of <pattern>) following lines go before the k-th occurrence of <token> (if that is
                                 the expression of a match arm the arm gets braces)
       //@after <k> <token-seq ending a statement>  following lines go after the `;` that ends the
                                 statement containing the k-th occurrence of the token sequence
@@ -395,6 +396,12 @@ def rw_R15(rf, a, b):
             while toks[sg[j]].text != ";":
                 j += 1
             out.append((Edit(i, sg[j] + 1, "", ("gen", "R15")), "R15 %s:%d `%s` removed (flat unit module)" % (rf.rel, toks[i].line, L.norm(L.text(toks, i, sg[j] + 1)))))
+        # module qualifiers of crate-local paths:  crate::request::X / request::X  ->  X
+        if toks[i].text == "crate" and _seq_at(toks, sg, k + 1, [":", ":"]) and toks[sg[k + 3]].text in CRATE_MODS and _seq_at(toks, sg, k + 4, [":", ":"]) and (k == 0 or toks[sg[k - 1]].text != "use"):
+            out.append((Edit(i, sg[k + 5] + 1, "", ("gen", "R15")), "R15 %s:%d path qualifier `crate::%s::` removed (flat unit module)" % (rf.rel, toks[i].line, toks[sg[k + 3]].text)))
+        elif toks[i].text in CRATE_MODS and toks[i].kind == "ident" and _seq_at(toks, sg, k + 1, [":", ":"]) and toks[sg[k + 3]].kind == "ident" and toks[sg[k + 3]].text[0].isupper() \
+                and (k < 2 or not (toks[sg[k - 1]].text == ":" and toks[sg[k - 2]].text == ":")) and (k == 0 or toks[sg[k - 1]].text not in ("use", "crate")):
+            out.append((Edit(i, sg[k + 2] + 1, "", ("gen", "R15")), "R15 %s:%d path qualifier `%s::` removed (flat unit module)" % (rf.rel, toks[i].line, toks[i].text)))
     return out
 
 
@@ -411,6 +418,7 @@ def rw_R2b(rf, a, b):
 
 
 
+CRATE_MODS = {"request", "response", "common", "util", "client"}
 DURATION_IDENTS = {"duration", "sleep_time", "timeout"}
 
 
@@ -444,7 +452,19 @@ def rw_R19(rf, a, b):
     return out
 
 
-REWRITES = {"R19": rw_R19, "R18": rw_R18, "R2b": rw_R2b, "R15": rw_R15, "R2": rw_R2, "R7": rw_R7, "R3": rw_R3, "R1": rw_R1, "R4": rw_R4, "R5": rw_R5, "R10": rw_R10, "R13": rw_R13, "R14": rw_R14}
+
+def rw_R20(rf, a, b):
+    """BufReader<RefinedTcpStream> / BufWriter<RefinedTcpStream> (type position) -> VerifBufReader / VerifBufWriter:
+    local opaque stand-ins (the trait-conflict checker cannot see std's `impl Read for BufReader<R>`)."""
+    toks, sg, out = rf.toks, _sig(rf.toks, a, b), []
+    for k, i in enumerate(sg):
+        for nm, new in (("BufReader", "VerifBufReader"), ("BufWriter", "VerifBufWriter")):
+            if _seq_at(toks, sg, k, [nm, "<", "RefinedTcpStream", ">"]):
+                out.append((Edit(i, sg[k + 3] + 1, new, ("gen", "R20")), "R20 %s:%d %s<RefinedTcpStream> -> %s" % (rf.rel, toks[i].line, nm, new)))
+    return out
+
+
+REWRITES = {"R20": rw_R20, "R19": rw_R19, "R18": rw_R18, "R2b": rw_R2b, "R15": rw_R15, "R2": rw_R2, "R7": rw_R7, "R3": rw_R3, "R1": rw_R1, "R4": rw_R4, "R5": rw_R5, "R10": rw_R10, "R13": rw_R13, "R14": rw_R14}
 
 
 # --------------------------------------------------------------------------------------------
@@ -688,6 +708,13 @@ class Unit:
         self.out.nl()
         render(self.out, rf, a, b, edits)
         self.out.nl()
+        if not inherent:
+            # associated types / consts of a trait impl are part of the header
+            for sub in rf.fns_in(it):
+                if sub["kw"] in ("type", "const"):
+                    s0 = strip_attrs_start(rf.toks, sub)
+                    render(self.out, rf, s0, sub["end"], self._apply_rewrites(rf, s0, sub["end"]))
+                    self.out.nl()
 
     def _fn(self, args, body_lines, relname, tpl_line):
         # header args
@@ -888,8 +915,16 @@ class Unit:
             optional = tok.endswith(" ?optional")
             if optional:
                 tok = tok[:-len(" ?optional")]
+            after_pat = None
+            if " @after " in tok:
+                tok, after_pat = tok.split(" @after ", 1)
             words = [t.text for t in L.tokenize(tok) if t.kind != "ws"]
             occ = [x for x in range(len(sgb)) if _seq_at(toks, sgb, x, words)]
+            if after_pat is not None:
+                # k-th occurrence of <token> AFTER the first occurrence of the anchor pattern
+                aw = [t.text for t in L.tokenize(after_pat) if t.kind != "ws"]
+                ao = [x for x in range(len(sgb)) if _seq_at(toks, sgb, x, aw)]
+                occ = [x for x in occ if ao and x > ao[0]] if ao else []
             if optional and (k < 1 or k > len(occ)):
                 continue   # the guarded statement is gone: the function's ensures still stand
             if k < 1 or k > len(occ):
